@@ -96,6 +96,8 @@ CHECKS = {
         'generated pipelines under computation-changing rewritings checked through the reference model\'s descriptor',
         'Value level: tens of thousands of pairs of unequal JSON-like values must print differently wherever they enter '
         'a key text. Chain level: a change at any upstream distance must move exactly the tasks whose descriptor changed. '
+        'Object level: objects of a small AutoParameterObject class hierarchy, represented in a generated order, must '
+        'print differently whenever class or a persisted argument differs. '
         'One open known finding (unescaped quotes) is excluded by a matcher that requires the frozen 1.4.0 scheme to '
         'collide too and a quote to be present.',
         'sha256 collisions not considered; default elision follows Python == (type-consistent generation).',
@@ -121,10 +123,11 @@ CHECKS = {
         'file-system-mutating event of the request is a crash point (directory snapshot before it) and every file being '
         'written is torn at all (small files) or structurally chosen prefix lengths; ALL states of a scenario are checked: '
         'a later chain either sees no result and recomputes exactly once, or sees the complete correct value. Raised '
-        'faults (before/within run, in generator bodies, mistyped, unserialisable) are checked for recovery in the same '
-        'and in a new chain, and for the work-directory protocol of DirData / ContinuesData.',
-        'Process death, not power loss (sequential writes persist up to the crash point); h5py and matplotlib figure I/O '
-        'are not exercised; states are probed by new chains in the same process.',
+        'faults (before/within run, KeyboardInterrupt before/within run, in generator bodies, mistyped, unserialisable; on '
+        'first and on forced computation) are checked for recovery in the same and in a new chain, and for the '
+        'work-directory protocol of DirData / ContinuesData. Data kinds include FigureData.',
+        'Process death, not power loss (sequential writes persist up to the crash point); h5py I/O is not exercised; '
+        'states are probed by new chains in the same process.',
         'DESIGN.md §4 C05',
     ),
     'C06': (
@@ -133,7 +136,9 @@ CHECKS = {
         'type-strict equality and before/after file digests',
         'For every storable data type a generated value is returned by a real task, read back by the computing chain and '
         'by fresh chains on the same directory, optionally recomputed (forced) with a second value over the first; all '
-        'must be type-strictly equal to what run returned, and loading must leave every stored file byte-identical.',
+        'must be type-strictly equal to what run returned, and loading must leave every stored file byte-identical - also '
+        'after the loaded value was mutated in place by its receiver; a load interrupted part-way and retried on the same '
+        'task must fail or return the whole value, never the part read so far.',
         'Later chains are new Chain objects in the same process; NaN/inf, >64-bit ints, non-str keys, tuples, object '
         'arrays are outside the stated domain.',
         'DESIGN.md §4 C06',
@@ -178,7 +183,9 @@ CHECKS = {
         'who moves next, so torn windows (between truncate and write, between write chunks, between a reader\'s reads) '
         'are actually visited; every returned value must be a complete computation\'s value, computers and writers must '
         'not overlap, the entry at quiescence must be the last complete write. Sampled schedules + bounded DFS; exhaustive '
-        'only where the DFS terminates within its bound (reported per configuration).',
+        'only where the DFS terminates within its bound (reported per configuration). Also: callers spread over two '
+        'keys of one cache directory (per-key guarantees), and 2-4 real forked processes on one key with the OS owning '
+        'the schedule (safety clauses only).',
         'flock excludes threads with separate file descriptions exactly as it excludes processes; single reads/chunk '
         'writes are atomic.',
         'DESIGN.md §4 C15',
@@ -200,8 +207,10 @@ CHECKS = {
         'finishes next); all completion orders enumerated for single chunks of <=5 elements; oracle = sequential map',
         'The worker completion order is a generated input, so ordering bugs that real scheduling almost never shows '
         '(workers finishing out of submission order) are produced in most cases; results, call counts and exception '
-        'propagation are compared with the sequential map, chunked with its specification. Exhaustive for one chunk of '
-        '<=5 elements, sampled beyond.',
+        'propagation (Exception, KeyError and StopIteration subclasses) are compared with the sequential map, chunked '
+        'with its specification; call forms (progress bar, defaults, total, desc, parallel_starmap) vary; a call that '
+        'does not come back although every call of f has finished is a violation (two idle alarm periods). Exhaustive '
+        'for one chunk of <=5 elements, sampled beyond.',
         'Completion order is controlled inside the mapped function; asyncio-internal scheduling is not. Calls are made '
         'from the main thread.',
         'DESIGN.md §4 C17',
@@ -214,7 +223,9 @@ CHECKS = {
         'location was last written successfully are compared field by field (task, every parameter representation, input '
         'keys, config, records, exact tagged message list, no foreign/garbled lines); failures, retries in the same '
         'process and forced recomputations are part of the histories.',
-        'Nothing is asserted after a failed attempt until the next success; in-memory tasks are not checked.',
+        'After a failed attempt over a stored result the run info must still be the producing run\'s; nothing is asserted '
+        'about the log until the next success; logger thresholds set by the user are honoured (a run that logs nothing '
+        'leaves an empty log); in-memory tasks are not checked.',
         'DESIGN.md §4 C18',
     ),
     'C19': (
@@ -290,7 +301,8 @@ def build():
         'checks': checks,
         'notes': 'All checks: exit 0 = held on everything explored (KNOWN-FINDING lines possible), 1 = VIOLATION, '
                  '2 = harness error. VERIF_SEED selects the Hypothesis seeds; PYTHONHASHSEED is pinned to 0 by ./check. '
-                 'Known findings: known-findings.txt.',
+                 'Known findings: known-findings.txt. Every run first replays regressions/<ID>/*.json (shrunk cases of earlier '
+                 'catches) with the property\'s oracle, without Hypothesis, then runs the generated campaign.',
         'not_applicable': na,
     }
     (ROOT / 'MANIFEST.json').write_text(json.dumps(man, indent=1) + '\n')
